@@ -129,6 +129,9 @@ class HTTPReader:
                     content_length = int(cl_string)
                 except ValueError as err:
                     raise ContentLengthError(f'invalid content-length "{cl_string}"') from err
+                if content_length < 0:
+                    # read(-1) would read until the peer closes the connection: the request is never answered
+                    raise ContentLengthError(f'invalid content-length "{cl_string}"')
                 http_body = http_message.rfile.read(content_length)
 
         # if we get compressed content then we check against server setting
@@ -158,6 +161,8 @@ class HTTPReader:
                 content_length = int(cl_string)
             except ValueError as err:
                 raise ContentLengthError(f'invalid content-length "{cl_string}"') from err
+            if content_length < 0:
+                raise ContentLengthError(f'invalid content-length "{cl_string}"')
             http_body = http_response.read(content_length)
         if http_body is None:
             transfer_encoding = http_response.getheader('transfer-encoding')
